@@ -395,7 +395,7 @@ impl Property for C09 {
     }
 
     fn plan(&self, tier: Tier) -> Vec<Stage<Case>> {
-        vec![Stage::random("random", tier.pick(60_000, 1_500_000), case_strategy)]
+        vec![Stage::random("random", tier.pick(150_000, 5_000_000), case_strategy)]
     }
 
     fn rule(&self) -> String {
@@ -403,7 +403,7 @@ impl Property for C09 {
     }
 
     fn floors(&self, tier: Tier) -> Vec<Floor> {
-        let n = tier.pick(60_000u64, 1_500_000);
+        let n = tier.pick(150_000u64, 5_000_000);
         vec![
             Floor { label: "shape:chain", min: n / 20 },
             Floor { label: "shape:star", min: n / 20 },
